@@ -26,3 +26,8 @@ Ltac omfix H :=
   first [ exact H
         | split; intro X; [ first [discriminate X | reflexivity | (apply H in X; exact X)]
                           | first [discriminate X | reflexivity | (apply H in X; discriminate X) | (apply H in X; exact X)] ] ].
+
+Lemma ltb_S_ne i c : i <> c -> (i <? c) = (i <? S c).
+Proof.
+  intros H. destruct (Nat.ltb_spec i c); destruct (Nat.ltb_spec i (S c)); try reflexivity; lia.
+Qed.
